@@ -66,9 +66,14 @@ def c01(rec, mode, d):
             return [("c01:time-year-outside-0-9999-panics", "encoding a time whose year is outside 0..9999 panics: " + go["enc_panic"][:120], True)]
         return [("c01:encode-panics:" + norm(go["enc_panic"]), "Marshal panicked: " + go["enc_panic"][:200], True)]
     if go.get("enc_err"):
+        if "is out of range [0, 9999]" in go["enc_err"]:
+            return []   # a year the date form cannot express: refused with an error (outside the supported values)
         return [("c01:encode-error:" + norm(go["enc_err"]), "Marshal failed: " + go["enc_err"][:200], True)]
     b = go_bytes(d)
     if go.get("rt_panic"):
+        if "hash of unhashable type []uint8" in go["rt_panic"] and value_has_invalid_utf8_str(rec):
+            return [("c01:invalid-utf8-string-key-of-interface-map-panics",
+                     "a string with invalid UTF-8 used as key of a map[interface{}]… is written as bytes and comes back as []byte, which cannot be a map key: Unmarshal panics (hash of unhashable type)", True)]
         return [("c01:decode-panics:" + norm(go["rt_panic"]), "Unmarshal of the library's own output panicked: " + go["rt_panic"][:200], True)]
     err, diff = go.get("rt_err", ""), go.get("rt", "")
     if not err and not diff:
@@ -82,8 +87,12 @@ def c01(rec, mode, d):
         return [("c01:time-in-other-zone-shifts-instant", "a time in a zone that is neither UTC nor Local comes back as a different instant: " + diff[:160], True)]
     if "came back as []uint8" in diff and value_has_invalid_utf8_str(rec):
         return [("c01:invalid-utf8-string-in-interface-returns-bytes", "a string with invalid UTF-8 inside interface{} comes back as []byte: " + diff[:120], True)]
-    m = re.search(r"integer (\d+) vs (-?\d+)", diff)
-    if m and int(m.group(1)) >= 2**63:
+    if "hash of unhashable type []uint8" in (go.get("rt_panic") or ""):
+        pass
+    if "big.Float" in diff and '"prec": 100' in json.dumps(rec["case"]["v"]):
+        return [("c01:bigfloat-precision-above-64-bits-is-lost", "a *big.Float with more than 64 bits of precision is written with the shortest text for its own precision and parsed back at 64 bits: " + diff[:120], True)]
+    m = re.search(r"integer (-?\d+) vs (-?\d+)", diff)
+    if m and (int(m.group(1)) >= 2**63 or int(m.group(1)) < -2**63):
         return [("c01:integer-above-int64-in-interface-wraps", "an unsigned integer above MaxInt64 inside interface{} comes back wrapped under the default LongType: " + diff[:120], True)]
     return [("c01:roundtrip:" + norm(err or diff) + ":" + tag.split(":")[0], "Unmarshal(Marshal(v)) differs: err=%r diff=%r" % (err[:160], diff[:200]), True)]
 
@@ -96,6 +105,8 @@ def c02(rec, mode, d):
     go, mo = d["go"], d["model"]
     tag = rec["case"].get("tag", "")
     out = []
+    if go.get("enc_err") and "is out of range [0, 9999]" in go["enc_err"]:
+        return []
     if go.get("enc_panic") or go.get("enc_err"):
         return [("c02:encode-fails:" + norm(go.get("enc_panic") or go.get("enc_err")), "encoding the graph failed: " + (go.get("enc_panic") or go.get("enc_err"))[:200], True)]
     if go.get("hex") and mo.get("go_parse") == "ok":
@@ -104,16 +115,21 @@ def c02(rec, mode, d):
         elif mo.get("go_den_eq_abs") == "0":
             out.append(("c02:backreference-resolves-to-other-item:" + tag.split(":")[0],
                         "a back-reference resolves to a different item than the encoder meant: got %s want %s" % (mo.get("go_den_txt"), mo.get("abs_txt")), True))
-    if go.get("rt_panic"):
-        out.append(("c02:decode-panics:" + norm(go["rt_panic"]), "decoding the graph panicked: " + go["rt_panic"][:200], True))
-    elif go.get("rt_err") or go.get("rt"):
+    # round trip of the graph: scalar-level round-trip defects are C01's business and are skipped here
+    scalar = c01(rec, mode, d)
+    scalar_keys = {k for k, _, _ in scalar}
+    known_scalar = {"c01:integer-above-int64-in-interface-wraps", "c01:invalid-utf8-string-in-interface-returns-bytes",
+                    "c01:invalid-utf8-string-key-of-interface-map-panics", "c01:bigfloat-precision-above-64-bits-is-lost"}
+    if tag.startswith("probe:error") or tag.startswith("probefield:error"):
+        pass   # an error value is written with the protocol tag E: the decoder reports it as the decode error by design
+    elif scalar and not (scalar_keys <= known_scalar):
         err, diff = go.get("rt_err", ""), go.get("rt", "")
-        cyclic = "cyc" in tag or "loop" in tag or "cycle" in tag or "self" in tag
-        if cyclic and not err and re.search(r"vs (0|\"\"|false)$", diff.strip()):
+        cyclic = any(x in tag for x in ("cyc", "loop", "cycle", "self"))
+        if go.get("rt_panic"):
+            out.append(("c02:decode-panics:" + norm(go["rt_panic"]), "decoding the graph panicked: " + go["rt_panic"][:200], True))
+        elif cyclic and not err:
             out.append(("c02:cyclic-pointer-decoded-as-copy-of-unfinished-object",
                         "a back-reference to an object still being decoded is resolved by copying it as decoded so far; fields after the reference are lost: " + diff[:160], True))
-        elif "complex" in err or "EOF" == err or "instant" in diff or "came back as []uint8" in diff:
-            pass   # scalar round-trip defects belong to C01
         else:
             out.append(("c02:graph-roundtrip:" + norm(err or diff) + ":" + tag.split(":")[0], "graph does not round-trip: err=%r diff=%r" % (err[:160], diff[:200]), True))
     if not out and go.get("hex") and mo.get("model") == "ok" and not rec["obs"].get("unordered") and mo.get("model_hex") != go["hex"]:
